@@ -27,6 +27,7 @@ fn main() {
         "conf" => h::eng_conf::main(rest),
         "cli" => h::eng_cli::main(rest),
         "keys" => h::eng_keys::main(rest),
+        "capi" => h::eng_capi::main(rest),
         e => {
             eprintln!("unknown engine {e}");
             std::process::exit(2);
